@@ -608,3 +608,15 @@ package walstore
 //@   ensures inv: liveAbove(s)
 //@   ensures mono: s.prunedUpToHeight >= old(s.prunedUpToHeight)
 //@   ensures maps_nonnil: s.entriesByHeight != nil && s.walFilesByHeight != nil && s.walHeightRefs != nil
+
+// ---- the number of the next log file: above every log file that exists -----------------------------
+// A restart must never re-create (and so truncate) a log file that is still on disk, whichever files
+// the clean-up has removed in between: the next number is above EVERY existing one, not a count.
+//@ func nextWALNum
+//@   props C14
+//@   arith int
+//@   requires forall j int :: 0 <= j && j < len(logs) ==> logs[j].Num < 4294967295
+//@   loop 1: invariant idx: -1 <= rangeindex && rangeindex < len(logs)
+//@   loop 1: invariant above_so_far: next >= 1 && (forall j int :: 0 <= j && j <= rangeindex ==> logs[j].Num < next)
+//@   ensures above_every_existing_log: forall j int :: 0 <= j && j < len(logs) ==> logs[j].Num < result
+//@   ensures at_least_the_first: result >= 1
